@@ -2,6 +2,8 @@ package rules
 
 import (
 	"fmt"
+	"go/token"
+	"go/types"
 	"strings"
 
 	"golang.org/x/tools/go/ssa"
@@ -15,7 +17,7 @@ func init() {
 		ID:    "C08",
 		Title: "Criteria mean the same with or without indexes and pruning",
 		Decides: "the Bloom filter probes the same (word, bit) sequence when adding and when testing an item (canonical SSA expressions of the probe index, the mask and the probe count are equal); part pruning by time / key range discards a part exactly when its range is disjoint from the query range, over every ordering of the four endpoints; " +
-			"every place that dispatches on a criteria operator handles the same operator set (index filter builders, in-scan tag filters, inverted-index query builder, secondary-index tag filter); the trace-id part filter skips a part only when no requested id may be contained; block/primary-block time bounds are maintained as running min/max against their own accumulator.",
+			"every place that dispatches on a criteria operator handles the same operator set (index filter builders, in-scan tag filters, inverted-index query builder, secondary-index tag filter); the trace-id part filter skips a part only when no requested id may be contained; block/primary-block time bounds are maintained as running min/max against their own accumulator, and a function that re-arms an accumulator's first-value guard also resets or consumes that accumulator (a part-level range is not restarted per primary block).",
 		NotDecided: "that the rows selected are exactly those satisfying the predicate, analyzer/tokenizer semantics of the inverted index, binary search boundaries inside part iterators.",
 		Technique:  "canonical symbolic expression equality between sibling functions (E8), relational world pruning on range endpoints, case-set agreement across packages, guarded accumulator updates",
 		Run:        runC08,
@@ -218,7 +220,8 @@ func runC08(c *core.Ctx) {
 	// 5. running min/max accumulators in the block writers
 	{
 		rule := "c08.range-accumulators"
-		n := 0
+		rule2 := "c08.accumulator-rearm"
+		n, nRearm := 0, 0
 		for _, s := range sibsAll {
 			f := r.P.Func(s.pkg, "(*blockWriter).mustWriteBlock")
 			if f == nil {
@@ -271,10 +274,64 @@ func runC08(c *core.Ctx) {
 					default:
 						r.Hold(rule, construct, r.pos(in), "")
 					}
+					// the "first value" guard that arms the accumulator: if G || new OP acc { acc = new }.
+					// Whoever puts G back into its first state must also reset or consume acc there, or the
+					// accumulator restarts in the middle of the span its reader takes it to cover.
+					for _, gp := range b.Preds {
+						gif, ok := gp.Instrs[len(gp.Instrs)-1].(*ssa.If)
+						if !ok || len(gp.Succs) != 2 {
+							continue
+						}
+						if !(gp.Succs[0] == b && gp.Succs[1] == b.Succs[0] || gp.Succs[1] == b && gp.Succs[0] == b.Succs[0]) {
+							continue
+						}
+						for _, g := range guardFields(gif.Cond) {
+							if g == accPath {
+								continue
+							}
+							nRearm++
+							gf, af := strings.TrimPrefix(g, "recv."), strings.TrimPrefix(accPath, "recv.")
+							for _, m := range r.P.ModuleFuncs(s.pkg) {
+								if m == f || m.Signature.Recv() == nil || f.Signature.Recv() == nil || !types.Identical(m.Signature.Recv().Type(), f.Signature.Recv().Type()) {
+									continue
+								}
+								rearm, touches := ssa.Instruction(nil), false
+								for _, mb := range m.Blocks {
+									for _, mi := range mb.Instrs {
+										switch y := mi.(type) {
+										case *ssa.Store:
+											if pth := strings.TrimPrefix(ssax.Path(y.Addr), "recv."); pth == gf {
+												if c, ok := y.Val.(*ssa.Const); ok && (c.Value == nil || c.Value.String() == "0" || c.Value.String() == "false") {
+													rearm = mi
+												}
+											} else if pth == af {
+												touches = true
+											}
+										case *ssa.UnOp:
+											if y.Op == token.MUL && strings.TrimPrefix(ssax.Path(y.X), "recv.") == af {
+												touches = true
+											}
+										}
+									}
+								}
+								if rearm == nil {
+									continue
+								}
+								c2 := fmt.Sprintf("%s re-arms %s, the first-value guard of %s.%s", ssax.FuncName(m), gf, ssax.FuncName(f), af)
+								if touches {
+									r.Hold(rule2, c2, r.pos(rearm), "")
+								} else {
+									r.Violate(rule2, c2, r.pos(rearm), fmt.Sprintf("%s puts %s back into its first state without resetting or consuming %s: the next block overwrites the accumulator, so the range handed to its reader no longer covers the earlier blocks of the span and pruning on it discards matching rows", ssax.FuncName(m), gf, af))
+								}
+							}
+						}
+					}
 				}
 			}
 		}
 		r.Floor(rule, 8)
+		_ = nRearm
+		r.Floor(rule2, 12)
 	}
 }
 
@@ -289,4 +346,28 @@ func rel(x int) string {
 		return ">"
 	}
 	return "="
+}
+
+// guardFields returns the receiver field paths read by a guard condition (g == 0, !g, g).
+func guardFields(v ssa.Value) []string {
+	var out []string
+	var walk func(v ssa.Value, d int)
+	walk = func(v ssa.Value, d int) {
+		if d > 3 {
+			return
+		}
+		if p := ssax.Path(v); strings.HasPrefix(p, "recv.") {
+			out = append(out, p)
+			return
+		}
+		switch x := v.(type) {
+		case *ssa.BinOp:
+			walk(x.X, d+1)
+			walk(x.Y, d+1)
+		case *ssa.UnOp:
+			walk(x.X, d+1)
+		}
+	}
+	walk(v, 0)
+	return out
 }
